@@ -82,6 +82,9 @@ static void feed(zckDL *dl, const uint8_t *p, size_t n, int mode, int hdr) {
         case 4: lcg = lcg * 1103515245 + 12345; k = 1 + (lcg >> 16) % 5; break;
         default: lcg = lcg * 1103515245 + 12345; k = 1 + (lcg >> 16) % 300; break;
         }
+        /* tiny pieces on a long body make the parser re-scan its carry-over quadratically; that is
+         * slowness spread over thousands of returning callbacks, not a hang, so keep the piece count bounded */
+        if(n > 4096 && k < n / 512) k = n / 512;
         if(k > n - pos) k = n - pos;
         char *cp = malloc(k);
         memcpy(cp, p + pos, k);
